@@ -20,7 +20,8 @@ VARIABLES rend
 
 svars == <<stack, hist, done, target, rend>>
 
-SepKinds  == {"SP", "SP3", "TAB", "FF", "LF", "CRLF", "LFLF", "HASH", "CC", "CCML", "MIX", "CCT", "CCMLT", "HASHT"}
+SepKinds  == {"SP", "SP3", "TAB", "FF", "LF", "CRLF", "LFLF", "HASH", "CC", "CCML", "MIX", "CCT", "CCMLT", "HASHT",
+              "CCSTAR", "CCSTARS", "CCEMPTY"}      \* C comments whose closing */ follows a run of asterisks; the empty comment
 CaseKinds == {"U", "l", "M"}
 QuoteKinds == {"DQ", "SQ", "BARE"}
 
